@@ -311,3 +311,7 @@ def run(ctx, led):
     run_rule(led, "U6", "SWAP-REMOVE-SKIP and nogood deletion discipline in the kernel the verdicts rely on (shared with C13-F1b / C07-J1)", shared.swap_remove_skip, ctx)
     run_rule(led, "U7", "a learned nogood is deleted only if it is not the reason of a trail entry (shared with C07-J1)", C07.j1, ctx)
     run_rule(led, "U5b", "posting is total: a predicate is skipped only when it already holds", u5b, ctx)
+    from . import predrules
+    run_rule(led, "U8", "every reason the kernel derives for a predicate that is true without being on the trail implies that predicate (TABLE over the implicit-reason match, decided on a small integer window)", predrules.implicit_reasons, ctx)
+    run_rule(led, "U9", "Predicate negation is the exact complement on the same variable (TABLE)", predrules.negation_exact, ctx)
+    run_rule(led, "U10", "Assignments::evaluate_predicate is exact on every domain shape (TABLE over all 31 domains of a 5-value universe)", predrules.evaluate_exact, ctx)
